@@ -26,7 +26,7 @@ TECH = {
     "C04": _DED + "; finite enumeration of the accumulator-dtype table; dispatch: " + _BND,
     "C07": "bounded only: run-time contracts (pre/post/old, written from the statement) on the real public methods over a bounded-exhaustive input space - the property lives in pandas/polars glue (fancy indexing, container restoration) outside the deductive verifier's reach; no obligation is counted as proved",
     "C11": "bounded only: run-time contracts on the real public methods over a bounded-exhaustive input space (labelling, ordering and shape are decided by pandas index glue outside the deductive verifier's reach); nothing counted as proved",
-    "C13": "bounded only: run-time contracts comparing every call in bounded operation histories on one GroupBy object with the same call on a fresh object (object state, caches and pyarrow re-chunking are outside the deductive verifier's reach); nothing counted as proved",
+    "C13": "bounded run-time contracts comparing every call in bounded operation histories on one GroupBy object with the same call on a fresh object (object state, caches and pyarrow re-chunking are outside the deductive verifier's reach); deductive part (PyVC, z3/cvc5): the count cache - GroupBy.count_ikey over chunk-local codes and pointer tables, and _find_first_chunk_in_slice - is proved to be a function of the logical codes and the mask alone, against ASSUMED contracts of its two glue callees (listed in the evidence)",
     "C14": "bounded only: run-time contracts on the real margins / crosstab methods against the aggregation they summarise over a bounded-exhaustive input space (pandas MultiIndex glue, outside the deductive verifier's reach); nothing counted as proved",
     "C16": "deductive part: the sum / sum-of-squares / count kernels and the variance identity (lemmas L-var, L-welford) by PyVC + z3/cvc5; medians, quantiles, apply and the composite helpers: " + _BND,
     "C17": "structural obligations on the AST of the facade (symbolic execution of every delegating method with the core methods uninterpreted: decided for all inputs, about program text) + " + _BND,
